@@ -33,19 +33,49 @@ def parse_row(ints):
 
 
 def mk(dt, ident):
+    """A distinct message per id, of varying type (so that a sort that looks at
+    anything but the time is noticed)."""
     import mido
     if ident == 0:
         return mido.MetaMessage('end_of_track', time=dt)
-    return mido.Message('note_on', channel=(ident // 128) % 16, note=ident % 128,
-                        velocity=1 + (ident // 2048) % 127, time=dt)
+    k, n = ident % 7, ident // 7
+    if k == 0:
+        return mido.Message('note_on', channel=(n // 128) % 16, note=n % 128, time=dt)
+    if k == 1:
+        return mido.Message('control_change', channel=(n // 128) % 16, control=n % 128, time=dt)
+    if k == 2:
+        return mido.Message('pitchwheel', pitch=n % 8192, time=dt)
+    if k == 3:
+        return mido.MetaMessage('text', text=str(n), time=dt)
+    if k == 4:
+        return mido.Message('sysex', data=[n % 128, (n // 128) % 128], time=dt)
+    if k == 5:
+        return mido.Message('aftertouch', channel=(n // 128) % 16, value=n % 128, time=dt)
+    return mido.MetaMessage('set_tempo', tempo=n, time=dt)
 
 
 def ident_of(m):
-    if m.type == 'end_of_track':
-        return 0
-    if m.type != 'note_on':
-        return -1
-    return m.note + 128 * m.channel + 2048 * (m.velocity - 1)
+    t = m.type
+    try:
+        if t == 'end_of_track':
+            return 0
+        if t == 'note_on':
+            return 7 * (m.note + 128 * m.channel)
+        if t == 'control_change':
+            return 7 * (m.control + 128 * m.channel) + 1
+        if t == 'pitchwheel':
+            return 7 * m.pitch + 2
+        if t == 'text':
+            return 7 * int(m.text) + 3
+        if t == 'sysex':
+            return 7 * (m.data[0] + 128 * m.data[1]) + 4
+        if t == 'aftertouch':
+            return 7 * (m.value + 128 * m.channel) + 5
+        if t == 'set_tempo':
+            return 7 * m.tempo + 6
+    except Exception:
+        pass
+    return -1
 
 
 def check_merge(tracks, merged):
